@@ -174,6 +174,11 @@ pub(super) mod udp {
         type Error = anyhow::Error;
 
         fn encode(&mut self, (content, addr): DatagramPacket, dst: &mut BytesMut) -> anyhow::Result<()> {
+            // a packet id is never used twice under one session key (and the peer refuses ids from u64::MAX on): when the
+            // ids have run out this session ends and a new one, with a session id of its own, takes over
+            if self.session.packet_id >= u64::MAX - 1 {
+                self.session = Session::from(Mode::Client);
+            }
             self.session.increase_packet_id();
             let start = dst.len();
             self.codec.encode((content, addr, self.session.clone()), dst)?;
